@@ -59,7 +59,12 @@ func MergeBlockBodySchemas(block *hcl.Block, blockSchema *schema.BlockSchema) (*
 		// use extensions of DependentBody if not nil
 		// (to avoid resetting to nil)
 		if depSchema.Extensions != nil {
+			dynamicBlocks := mergedSchema.Extensions != nil && mergedSchema.Extensions.DynamicBlocks
 			mergedSchema.Extensions = depSchema.Extensions.Copy()
+			if dynamicBlocks {
+				// the dynamic block type was added above
+				mergedSchema.Extensions.DynamicBlocks = true
+			}
 		}
 	} else if (result == LookupFailed || result == NoDependentKeys) && mergedSchema.Extensions != nil && mergedSchema.Extensions.DynamicBlocks && len(mergedSchema.Blocks) > 0 {
 		// dynamic blocks are only relevant for dependent schemas,
